@@ -159,7 +159,7 @@ struct Done {
 /// Depth-first search for a linearization: ops whose every real-time predecessor is placed may
 /// go next. `on_match` is called with the model after a complete order that reproduces all
 /// responses; it decides whether the final state matches too.
-fn search(done: &[Done], placed: &mut Vec<usize>, model: &Model, http: bool, relax: bool, on_match: &mut dyn FnMut(&Model, &[usize]) -> bool, tried: &mut u32) -> bool {
+fn search(done: &[Done], witness: &[Done], placed: &mut Vec<usize>, model: &Model, http: bool, relax: bool, on_match: &mut dyn FnMut(&Model, &[usize]) -> bool, tried: &mut u32) -> bool {
     if placed.len() == done.len() {
         *tried += 1;
         return on_match(model, placed);
@@ -181,10 +181,10 @@ fn search(done: &[Done], placed: &mut Vec<usize>, model: &Model, http: bool, rel
             if let Req::AddSnapshot { c, .. } = &d.req {
                 if model.client(c).is_none()
                     && d.resp == Resp::AsOk
-                    && done.iter().any(|o| o.tid != d.tid && o.inv < d.ret && matches!(&o.req, Req::AddVersion { c: c2, .. } if c2 == c))
+                    && witness.iter().any(|o| o.tid != d.tid && o.inv < d.ret && matches!(&o.req, Req::AddVersion { c: c2, .. } if c2 == c))
                 {
                     placed.push(i);
-                    if search(done, placed, model, http, relax, on_match, tried) {
+                    if search(done, witness, placed, model, http, relax, on_match, tried) {
                         return true;
                     }
                     placed.pop();
@@ -209,7 +209,7 @@ fn search(done: &[Done], placed: &mut Vec<usize>, model: &Model, http: bool, rel
         };
         for mv in variants {
             placed.push(i);
-            if search(done, placed, &mv, http, relax, on_match, tried) {
+            if search(done, witness, placed, &mv, http, relax, on_match, tried) {
                 return true;
             }
             placed.pop();
@@ -459,10 +459,10 @@ pub fn exec(plan: &ConcPlan) -> RunOut {
             }
         };
         let mut placed = Vec::new();
-        if !search(&live, &mut placed, &base_model, http, false, &mut on_match, &mut tried) && http {
+        if !search(&live, &done, &mut placed, &base_model, http, false, &mut on_match, &mut tried) && http {
             let mut placed = Vec::new();
             let mut tried2 = 0;
-            if search(&live, &mut placed, &base_model, http, true, &mut on_match, &mut tried2) {
+            if search(&live, &done, &mut placed, &base_model, http, true, &mut on_match, &mut tried2) {
                 half_created = true;
             }
         }
